@@ -285,6 +285,17 @@ impl World {
                 }
             });
         }
+        // every fourth output position: the task polls with a fresh waker (the stream must then wake
+        // THAT one); wakes of the old waker seen so far are absorbed first
+        if nout % 4 == 3 {
+            if s.cw.0.load(AO::SeqCst) > s.seen_wakes {
+                s.woken = true;
+            }
+            let cw = Arc::new(CountWaker(AtomicUsize::new(0)));
+            s.waker = Waker::from(cw.clone());
+            s.cw = cw;
+            s.seen_wakes = 0;
+        }
         let waker = s.waker.clone();
         let mut cx = Context::from_waker(&waker);
         let Some(stream) = s.stream.as_mut() else {
